@@ -6,7 +6,7 @@ payload: {api, module, service, service_snake, pkg,
           kind: 'future'|'plain', resp, meta, out,              # full names, as the SPEC resolved them (used only to
                                                                 # build the server's replies from the INPUT descriptors)
           opname, poll_prefix,
-          runs: [{id, mode: sync|asyncio, transport: grpc|rest, form: request|flattened, k, outcome: response|error,
+          runs: [{id, mode: sync|asyncio, transport: grpc|rest, inst: 1|2, form: request|flattened, k, outcome: response|error,
                   value, code}]}
 result : {runs: [{id, mode, transport, events, error}], versions}
 
@@ -25,8 +25,10 @@ Events (all carry the same fields; unused ones are ''/0):
   return  type, value        (plain methods) the client method returned a message
   crash   detail             anything else that was raised (also: the emitted client / transport could not be
                              imported or constructed - then it is the only event of the run)
-chan = 1 iff the call is accounted for by the log of the ONE recorded channel handed to the transport (grpc),
-resp. arrived at the loopback HTTP server the transport was pointed at (rest); 2 otherwise.
+Two client instances of the service live in the process for every (mode, transport) group, each on its own
+recorded channel (grpc) / transport (rest) to its OWN loopback server; a run is made through instance `inst`.
+chan = i  iff the call reached server i and (grpc) is accounted for by the log of the recorded channel of
+instance i, resp. (rest) carries the Host of server i;  0 otherwise (a channel nobody handed to the transport).
 """
 import asyncio
 import inspect
@@ -125,13 +127,15 @@ class Script:
         self.pool, self.pl = pool, pl
         self.run = None
         self.events = []
-        self.chlog = []          # log of the ONE recorded channel
-        self.srv_seen = {}       # path -> number of calls that reached the server
+        self.chlogs = [[], []]   # logs of the recorded channels of client instance 1 and 2
+        self.srv_seen = {}       # (server, path) -> number of calls that reached that server
+        self.http_hostports = ['', '']
         self.cursor = 1
 
     def reset(self, run):
         self.run, self.events, self.cursor = run, [], 1
-        del self.chlog[:]
+        for lgx in self.chlogs:
+            del lgx[:]
         self.srv_seen = {}
 
     # -- what the server answers (built from the INPUT descriptors only)
@@ -175,13 +179,15 @@ class Script:
         return m
 
     # -- gRPC
-    def grpc_chan(self, path):
-        n_srv = self.srv_seen[path] = self.srv_seen.get(path, 0) + 1
-        n_ch = sum(1 for e in self.chlog if e['ev'] == 'ChannelCall' and e['path'] == path)
-        return 1 if n_ch >= n_srv else 2
+    def grpc_chan(self, idx, path):
+        """idx: the loopback server (1 | 2) that saw the call = the server client instance idx was pointed at.
+        The call went out on channel idx iff the log of the recorded channel of instance idx accounts for it."""
+        n_srv = self.srv_seen[(idx, path)] = self.srv_seen.get((idx, path), 0) + 1
+        n_ch = sum(1 for e in self.chlogs[idx - 1] if e['ev'] == 'ChannelCall' and e['path'] == path)
+        return idx if n_ch >= n_srv else 0
 
-    def grpc_respond(self, path, reqs, md, tr):
-        chan = self.grpc_chan(path)
+    def grpc_respond(self, idx, path, reqs, md, tr):
+        chan = self.grpc_chan(idx, path)
         m = self.pl['method']
         if path == m['grpc_path']:
             arg = self.pool.decode(m['req'], reqs[0]).get(m['field'], '') if len(reqs) == 1 else '?'
@@ -198,11 +204,11 @@ class Script:
         raise lg.Abort('UNIMPLEMENTED', 'not scripted: ' + path)
 
     # -- REST
-    def http_respond(self, entry):
+    def http_respond(self, idx, entry):
         m = self.pl['method']
         verb, path = entry['verb'], entry['path']
         host = dict((k.lower(), v) for k, v in entry['headers']).get('host', '')
-        chan = 1 if host == self.http_hostport else 2
+        chan = idx if host == self.http_hostports[idx - 1] else 0
 
         def js(msg):
             return json_format.MessageToJson(msg, descriptor_pool=self.pool.pool).encode()
@@ -342,9 +348,10 @@ def main():
     patch_time()
     pool = rt.Pool(pl['api'])
     script = Script(pool, pl)
-    gsrv = lg.Server(script.grpc_respond)
-    hsrv = lh.Server(script.http_respond)
-    script.http_hostport = hsrv.hostport
+    # two loopback servers of each kind: client instance i (its own channel / transport) talks to server i
+    gsrvs = [lg.Server(lambda *a, _i=i: script.grpc_respond(_i, *a)) for i in (1, 2)]
+    hsrvs = [lh.Server(lambda e, _i=i: script.http_respond(_i, e)) for i in (1, 2)]
+    script.http_hostports = [h.hostport for h in hsrvs]
     out = []
     mod, svc, snake = pl['module'], pl['service'], pl['service_snake']
     by = {}
@@ -364,10 +371,10 @@ def main():
         if ('sync', transport) not in by:
             return
         try:
-            client, close = make()
+            clients, close = make()          # BOTH instances exist in this process before the first call
             for r in by[('sync', transport)]:
                 script.reset(r)
-                err = run_sync(script, client)
+                err = run_sync(script, clients[r.get('inst', 1) - 1])
                 out.append(dict(id=r['id'], mode='sync', transport=transport, events=script.events, error=err))
             close()
         except Exception as e:
@@ -376,23 +383,24 @@ def main():
     def make_sync_grpc():
         _, C = rt.import_client(mod, svc, False)
         T = rt.transport_class(mod, snake, svc, 'grpc')
-        ch = lg.sync_channel(gsrv.target, script.chlog)
-        return C(transport=T(channel=ch, host=gsrv.target)), ch.close
+        chs = [lg.sync_channel(g.target, script.chlogs[i]) for i, g in enumerate(gsrvs)]
+        return [C(transport=T(channel=ch, host=g.target)) for ch, g in zip(chs, gsrvs)], (lambda: [ch.close() for ch in chs])
 
     def make_sync_rest():
         from google.auth.credentials import AnonymousCredentials
         _, C = rt.import_client(mod, svc, False)
         T = rt.transport_class(mod, snake, svc, 'rest')
-        return C(transport=T(host=hsrv.hostport, url_scheme='http', credentials=AnonymousCredentials())), (lambda: None)
+        return [C(transport=T(host=h.hostport, url_scheme='http', credentials=AnonymousCredentials()))
+                for h in hsrvs], (lambda: None)
 
     async def async_group(transport, make):
         if ('asyncio', transport) not in by:
             return
         try:
-            client, close = make()
+            clients, close = make()
             for r in by[('asyncio', transport)]:
                 script.reset(r)
-                err = await run_async(script, client)
+                err = await run_async(script, clients[r.get('inst', 1) - 1])
                 out.append(dict(id=r['id'], mode='asyncio', transport=transport, events=script.events, error=err))
             await close()
         except Exception as e:
@@ -401,16 +409,24 @@ def main():
     def make_async_grpc():
         _, C = rt.import_client(mod, svc, True)
         T = rt.transport_class(mod, snake, svc, 'grpc_asyncio')
-        ch = lg.aio_channel(gsrv.target, script.chlog)
-        return C(transport=T(channel=ch, host=gsrv.target)), ch.close
+        chs = [lg.aio_channel(g.target, script.chlogs[i]) for i, g in enumerate(gsrvs)]
+
+        async def close():
+            for ch in chs:
+                await ch.close()
+        return [C(transport=T(channel=ch, host=g.target)) for ch, g in zip(chs, gsrvs)], close
 
     def make_async_rest():
         import importlib
         from google.auth.aio.credentials import AnonymousCredentials as AAnon
         _, C = rt.import_client(mod, svc, True)
         T = getattr(importlib.import_module(f'{mod}.services.{snake}.transports'), f'Async{svc}RestTransport')
-        tr = T(host=hsrv.hostport, url_scheme='http', credentials=AAnon())
-        return C(transport=tr), tr.close
+        trs = [T(host=h.hostport, url_scheme='http', credentials=AAnon()) for h in hsrvs]
+
+        async def close():
+            for tr in trs:
+                await tr.close()
+        return [C(transport=tr) for tr in trs], close
 
     try:
         sync_group('grpc', make_sync_grpc)
@@ -421,8 +437,8 @@ def main():
                 await async_group('rest', make_async_rest)
             asyncio.run(amain())
     finally:
-        gsrv.stop()
-        hsrv.stop()
+        for x in gsrvs + hsrvs:
+            x.stop()
     import google.api_core
     import grpc
     rt.emit(dict(runs=out, sleeps=Clock.sleeps,
